@@ -198,7 +198,12 @@ where
 {
     let ty = E::ty();
     let rounds = ctx.n(40, 400);
-    for len in lengths(ctx) {
+    let mut plan: Vec<(usize, u64)> = lengths(ctx).into_iter().map(|l| (l, rounds)).collect();
+    if ty.may_encode_empty() {
+        // elements with an empty encoding cost nothing: counts that need three varint bytes, once each
+        plan.extend([(65_535usize, 1u64), (65_536, 1), (65_537, 1), (70_000, 1)]);
+    }
+    for (len, rounds) in plan {
         for round in 0..rounds {
             let mut rng = ctx.rng_for(0xC12, name, (len as u64) << 20 | round);
             let items = gen_items(ctx, &ty, len, &mut rng);
